@@ -29,6 +29,9 @@ structure OpRow where
   ascii : Nat
   unicode : Nat
   key : String
+  /-- spellings exactly as the printer writes them (code points; `UN ` keeps its blank) -/
+  asciiTxt : List Nat := []
+  unicodeTxt : List Nat := []
   deriving DecidableEq, Repr, Inhabited
 
 structure BinderRow where
@@ -36,6 +39,8 @@ structure BinderRow where
   ascii : Nat
   unicode : Nat
   key : String
+  asciiTxt : List Nat := []
+  unicodeTxt : List Nat := []
   deriving DecidableEq, Repr, Inhabited
 
 structure Table where
@@ -67,15 +72,15 @@ structure Ladder where
 inductive Tok
   | lp | rp | dot | kif | kthen | kelse
   | sym (s : Nat)
-  | id (s : String)
+  | id (s : List Nat)
   deriving DecidableEq, Repr, Inhabited
 
 inductive Skel
-  | atom (s : String)
+  | atom (s : List Nat)
   | app (f a : Skel)
   | bin (o : Nat) (l r : Skel)
   | un (o : Nat) (a : Skel)
-  | binder (b : Nat) (x : String) (body : Skel)
+  | binder (b : Nat) (x : List Nat) (body : Skel)
   | ite (c a b : Skel)
   deriving DecidableEq, Repr, Inhabited
 
@@ -150,7 +155,7 @@ def wrap (b : Bool) (ts : List Tok) : List Tok := if b then Tok.lp :: ts ++ [Tok
 
 /-- the printer's row for the `b`-th binder alternative of the grammar: the row whose ascii spelling the grammar lists there -/
 def binderRow (T : Table) (L : Ladder) (b : Nat) : BinderRow :=
-  (T.allBinders.find? (fun r => (L.binders.getD b []).contains r.ascii)).getD ⟨"", 1000000, 1000000, ""⟩
+  (T.allBinders.find? (fun r => (L.binders.getD b []).contains r.ascii)).getD { funName := "", ascii := 1000000, unicode := 1000000, key := "" }
 
 /-- the spelling the PRINTER uses (operator.py / pprint.py), not the grammar's -/
 def binderSpell (T : Table) (L : Ladder) (uni : Bool) (b : Nat) : Nat :=
@@ -277,56 +282,67 @@ def parseSkel (T : Table) (L : Ladder) (ts : List Tok) : Option Skel :=
   | some (t, []) => some t
   | _ => none
 
-/-! ### Lexer (name-safe fragment)
+/-! ### Lexer
 
-A plain longest-match lexer.  It is NOT Lark's contextual lexer: Lark only considers the terminals
-the parser can accept in its current state, so `INT UN S` (keywords where only an atom can stand are
-read as identifiers) and `a|-b` (`|` then `-`, because `|-` is no terminal of rule `term`) parse in
-Lark, while this lexer produces keyword tokens / the token `|-` and the model parser answers `none`.
-No theorem is stated about this lexer; it is only used to compare the model with real printed texts
-whose identifiers are `NameOK`. -/
+Characters are Unicode code points (`Nat = Nat`), texts are `List Nat`; the driver converts.
+`S` is the list of literal terminals of the grammar (regenerated: `Gen.symbolsC`), a symbol token
+carries the index of its terminal in `S`.
 
-def isIdStart (c : Char) : Bool := c.isAlpha || c = '_'
-def isIdChar (c : Char) : Bool := c.isAlphanum || c = '_'
+The lexer is Lark's standard lexer for this grammar: `%ignore WS` at a token start; the regexp
+terminals CNAME / INT match greedily and come before every string terminal in Lark's alternation
+(they have the larger `max_width`), a CNAME match that is spelled like a string terminal becomes
+that terminal (Lark's `UnlessCallback`); string terminals are tried longest first.  What it does
+NOT model is the CONTEXTUAL restriction of the candidates to the terminals the LALR parser can
+accept in its current state: `P UN S` (keywords read as identifiers where no operator can stand)
+or `a|-b` lex differently in Lark.  For texts printed from skeletons whose names are `NameOK` the
+two agree; that is what `lex_print` proves for the model and what the correspondence stream
+checks against Lark's real token stream. -/
 
-/-- longest literal terminal that is a prefix of the input -/
-def longestTerminal (terms : List String) (cs : List Char) : Option String :=
-  terms.foldl (fun best t =>
-    if t.toList.isPrefixOf cs && (match best with | some b => decide (b.length < t.length) | none => true) then some t else best) none
+abbrev Chr := Nat
 
-def tokOfTerminal (terms : List String) (s : String) : Tok :=
-  if s = "(" then .lp else if s = ")" then .rp else if s = ". " then .dot
-  else if s = "if" then .kif else if s = "then" then .kthen else if s = "else" then .kelse
-  else .sym (terms.idxOf s)
+def isLetter (c : Nat) : Bool := (65 ≤ c && c ≤ 90) || (97 ≤ c && c ≤ 122)
+def isDigitC (c : Nat) : Bool := 48 ≤ c && c ≤ 57
+def isIdStart (c : Nat) : Bool := isLetter c || c = 95
+def isIdChar (c : Nat) : Bool := isLetter c || isDigitC c || c = 95
+def isWs (c : Nat) : Bool := c = 32 || c = 10 || c = 9 || c = 13
 
-/-- Lexer: whitespace dropped; identifiers / numerals by longest match, an identifier-shaped
-literal terminal (keyword) wins over CNAME on a tie; other terminals by longest match. -/
-def lexAux (terms : List String) : Nat → List Char → List Tok → Option (List Tok)
+/-- the token of a literal terminal -/
+def tokOfTerminal (S : List (List Nat)) (w : List Nat) : Tok :=
+  if w = [40] then .lp else if w = [41] then .rp else if w = [46, 32] then .dot
+  else if w = [105, 102] then .kif else if w = [116, 104, 101, 110] then .kthen else if w = [101, 108, 115, 101] then .kelse
+  else .sym (S.idxOf w)
+
+/-- longest string terminal that is a prefix of the input, trying lengths `n, n-1, …, 1` -/
+def matchLen (S : List (List Nat)) (cs : List Nat) : Nat → Option (List Nat)
+  | 0 => none
+  | n + 1 =>
+    if (cs.take (n + 1)).length = n + 1 ∧ S.contains (cs.take (n + 1)) = true then some (cs.take (n + 1))
+    else matchLen S cs n
+
+def maxLen (S : List (List Nat)) : Nat := (S.map List.length).foldl max 0
+
+def lexAux (S : List (List Nat)) : Nat → List Nat → List Tok → Option (List Tok)
   | 0, _, _ => none
   | _ + 1, [], acc => some acc.reverse
   | f + 1, c :: cs, acc =>
-    if c = '.' ∧ cs.head? = some ' ' then lexAux terms f cs.tail (.dot :: acc)
-    else if c = ' ' ∨ c = '\n' ∨ c = '\t' then lexAux terms f cs acc
+    if isWs c then lexAux S f cs acc
     else if isIdStart c then
       let w := (c :: cs).takeWhile isIdChar
-      let rest := (c :: cs).dropWhile isIdChar
-      let s := String.ofList w
-      lexAux terms f rest ((if terms.contains s then tokOfTerminal terms s else .id s) :: acc)
-    else if c.isDigit then
-      let w := (c :: cs).takeWhile Char.isDigit
-      lexAux terms f ((c :: cs).dropWhile Char.isDigit) (.id (String.ofList w) :: acc)
+      lexAux S f ((c :: cs).dropWhile isIdChar) ((if S.contains w then tokOfTerminal S w else .id w) :: acc)
+    else if isDigitC c then
+      lexAux S f ((c :: cs).dropWhile isDigitC) (.id ((c :: cs).takeWhile isDigitC) :: acc)
     else
-      match longestTerminal terms (c :: cs) with
-      | some t => lexAux terms f ((c :: cs).drop t.length) (tokOfTerminal terms t :: acc)
+      match matchLen S (c :: cs) (maxLen S) with
+      | some w => lexAux S f ((c :: cs).drop w.length) (tokOfTerminal S w :: acc)
       | none => none
 
-def lex (terms : List String) (s : String) : Option (List Tok) := lexAux terms (s.length + 1) s.toList []
+def lex (S : List (List Nat)) (cs : List Nat) : Option (List Tok) := lexAux S (cs.length + 1) cs []
 
-/-- identifier shape and not a keyword terminal -/
-def NameOK (terms : List String) (s : String) : Bool :=
-  match s.toList with
+/-- identifier (CNAME) that is no literal terminal, or a numeral (INT) -/
+def NameOK (S : List (List Nat)) (w : List Nat) : Bool :=
+  match w with
   | [] => false
-  | c :: cs => isIdStart c && cs.all isIdChar && !terms.contains s
+  | c :: cs => (isIdStart c && cs.all isIdChar && !S.contains w) || (isDigitC c && cs.all isDigitC)
 
 end Holpy.C07
 
